@@ -21,6 +21,9 @@ structure SrcWF (t : Src α) : Prop where
   rowLen : ∀ r ∈ t.rows, r.length = t.samp.length
   omdLen : ∀ m, t.omd = some m → m.length = t.obs.length
   smdLen : ∀ m, t.smd = some m → m.length = t.samp.length
+  /-- group metadata of an axis is a dict: distinct keys -/
+  ogmdKeys : ((gmdAll t.ogmd t.ogmdBare).map (·.1)).Nodup
+  sgmdKeys : ((gmdAll t.sgmd t.sgmdBare).map (·.1)).Nodup
 
 /-- The scipy contract for the two layouts `to_hdf5` obtains from `asformat('csr')` /
 `asformat('csc')` after `nnz` has eliminated stored zeros: each is well formed, has the table's
@@ -698,6 +701,19 @@ theorem readView_matTree (major minor : Nat) (cs : CS α) :
   simp only [readView, reqE, matTree, specVals_f, specNats_nat, bind, Except.bind, pure, Except.pure]
 
 end groups
+
+theorem gmdOK_axTree [DecidableEq α] (c : Utf8) (hc : c.RT) (ids : List Id) (md : Option (List (MdE α)))
+    (g : List (String × String × String)) (cs : CS α) (hnd : (g.map (·.1)).Nodup) :
+    gmdOK c g (some (axTree c ids md g cs)) = true := by
+  have hds : gmdDsets (α := α) c g = g.map (fun x => ((fun kv : String × String × String => kv.1) x,
+      (fun kv : String × String × String =>
+        ({ kind := .vlenStr, data := .d1 [strCell c kv.2.2], dataType := some kv.2.1 } : DSet α)) x)) := rfl
+  unfold gmdOK
+  simp only [axTree, Bool.and_eq_true, beq_iff_eq, List.all_eq_true]
+  refine ⟨by simp [gmdDsets], ?_⟩
+  intro kv hkv
+  rw [hds, lookup_map_nodup _ _ g hnd kv hkv]
+  simp [strCell, hc.rt, okEq]
 
 /-- the root attributes `to_hdf5` writes -/
 def attrTree (dc : DateC δ) (t : Src α) (genBy : String) (date : Option δ) (now : δ) (csr : CS α) :
